@@ -45,3 +45,31 @@ Print Assumptions C14_rescale_edges.
 Print Assumptions C14_rescale_outside.
 Print Assumptions C14_awg_raise_conditions.
 Print Assumptions C15_seqx_raise_conditions.
+
+(* ---- the numeric limits of the hand model's sequencing guards are the ones the source states ---- *)
+From Coq Require Import Bool.
+From BB Require Import Model.Types Model.Sequence Model.Output Numeric.GuardConstants.
+Open Scope bool_scope.
+
+Theorem C14_awg_seq_ok_source : forall n q,
+  awg_seq_ok n q =
+  in_list outputForAWGFile_twait_allowed (twait q)
+  && in_pair (outputForAWGFile_nrep_range n) (nrep q)
+  && in_pair (outputForAWGFile_jump_to_range n) (jump_target q)
+  && in_pair (outputForAWGFile_goto_range n) (goto q).
+Proof. exact awg_seq_ok_source. Qed.
+Print Assumptions C14_awg_seq_ok_source.
+
+Theorem C15_seqx_seq_ok_source : forall n q,
+  seqx_seq_ok n q =
+  in_list outputForSEQXFile_twait_allowed (twait q)
+  && in_list outputForSEQXFile_jump_state_allowed (jump_input q)
+  && in_pair (outputForSEQXFile_nrep_range n) (nrep q)
+  && in_pair (outputForSEQXFile_jump_to_range n) (jump_target q)
+  && in_pair (outputForSEQXFile_goto_range n) (goto q).
+Proof. exact seqx_seq_ok_source. Qed.
+Print Assumptions C15_seqx_seq_ok_source.
+
+Theorem C15_seqx_min_points_source : seqx_min_points = outputForSEQXFile_min_points.
+Proof. exact seqx_min_points_source. Qed.
+Print Assumptions C15_seqx_min_points_source.
